@@ -167,6 +167,13 @@ func (p *jsonPrinter) number(n string) string {
 func (p *jsonPrinter) expr(v *Val) string {
 	switch v.K {
 	case "s":
+		if p.coin(6) {
+			// part of the string as the interpolation of a native string literal
+			if s1, s2, s3, ok := splitForInterp(v.S, p.r.Intn); ok {
+				p.stats["json:literal-interpolation"]++
+				return p.str(tmplEscape(s1) + `${"` + natEscape(tmplEscape(s2), false, nil) + `"}` + tmplEscape(s3))
+			}
+		}
 		return p.str(tmplEscape(v.S))
 	case "n":
 		return p.number(v.N)
